@@ -260,8 +260,11 @@ def conv_wire(t):
 
 BOUNDS_Q = [(None, None), ("0", None), (None, "3"), ("0", "3"), ("-2.5", None), ("-2.5", "2.5"), ("3", "3"),
             (None, "-2"), ("1", "1e3"), ("2**53", None), ("-inf", "inf"), ("0.5", "10**30")]
-BOUNDS_T = BOUNDS_Q + [("True", None), (None, "0"), ("-3", "-1"), ("0.1", "0.1"), ("inf", None), (None, "-inf"),
-                       ("nan", None), (None, "nan"), ("-0.0", "0.0"), ("10**400", None), (None, "2**1024"),
+# non-finite bounds are exercised at every tier, for int/float and for ints/floats
+NONFINITE_BOUNDS = [("inf", None), (None, "-inf"), ("nan", None), (None, "nan"), ("-inf", None), (None, "inf")]
+HUGE_BOUNDS = [("10**400", None), (None, "2**1024")]     # ints too large for a float, every tier
+BOUNDS_Q = BOUNDS_Q + NONFINITE_BOUNDS + HUGE_BOUNDS
+BOUNDS_T = BOUNDS_Q + [("True", None), (None, "0"), ("-3", "-1"), ("0.1", "0.1"), ("-0.0", "0.0"),
                        ("4", "2**0.5*4")]
 SIZES_Q = [(None, None, None), (1, None, None), (2, None, None), (3, None, None), (None, 2, None), (None, None, 2),
            (None, 1, 3), (None, 2, 2)]
@@ -276,7 +279,8 @@ def type_grid(tier):
         for lo, hi in bq:
             for an in (True, False):
                 out.append([k, lo, hi, an])
-    lb = bq[:6] if tier == "quick" else bq
+    # lists: a slice of the bound pairs at quick tier, always including the non-finite ones
+    lb = (bq[:6] + NONFINITE_BOUNDS + HUGE_BOUNDS) if tier == "quick" else bq
     for k in ("ints", "floats"):
         for size, smin, smax in sq:
             for i, (lo, hi) in enumerate(lb):
@@ -460,7 +464,18 @@ class FromWords(Stream):
             [["ints", None, None, None, None, None, False, False], "()", "v"],    # empty after bracket stripping
             [["floats", None, None, None, None, None, False, False], "(( ))", "v"],
             [["ints", None, 1, None, None, None, False, False], '""', "v"],
-            [["int", None, "3", True], "10**4300", "v"],      # "%d" % huge inside the error message: ValueError
+            # former finding F21 (repaired in fb27147): the bound-violation message formats with hex()/str()
+            [["int", None, "3", True], "10**4300", "v"],      # AboveMax (was ValueError from "%d")
+            [["ints", None, None, None, "0", None, False, False], "1 -10**4300", "v"],   # BelowMin
+            [["int", "inf", None, True], "3", "v"],           # BelowMin (was OverflowError from "%d" % inf)
+            [["int", None, "-inf", True], "3", "v"],
+            [["int", "nan", None, True], "3", "v"],
+            [["ints", None, None, None, None, "nan", False, False], "1 2", "v"],
+            # repaired in 74d055d: an int bound too large for a float prints as str()/hex() in the message
+            [["float", "10**400", None, True], "1", "v"],     # BelowMin (was OverflowError from "%.10g")
+            [["float", None, "10**400", True], "inf", "v"],   # AboveMax
+            [["floats", None, None, None, "10**400", None, False, False], "1 2", "v"],
+            [["float", "10**4300", None, True], "1", "v"],    # beyond the digit limit: hex()
             [["int", None, None, True], "(True)", "v"],       # eval gives a bool: returned as it is
             [["int", "0", "3", False], "4/2", "v"],
             [["int", "0", "3", False], "1e3", "v"],
